@@ -26,7 +26,7 @@ EXPLANATION = ('Failure-atomicity and guard rules on the CFG of FeatureRef::appl
                'value from readFeats, a cast-chain typing rule on the setting comparison, copy-constructor use at the two clone sites, '
                'the language match, and the shared tag-normalisation rule.  How need_bits are packed into 32-bit chunks and which bytes '
                'a label has are value-level and not decided.')
-FLOORS = {'NOSTRADDLE': 1, 'FAILATOMIC': 5, 'READGUARD': 1, 'NOSETTINGS': 1, 'SETTINGZEXT': 1, 'CLONE': 3, 'LANGMATCH': 1, 'INDEXTESTS': 1, 'TAGNORM': 3}
+FLOORS = {'NOSTRADDLE': 1, 'FAILATOMIC': 5, 'READGUARD': 1, 'NOSETTINGS': 1, 'SETTINGZEXT': 1, 'CLONE': 3, 'LANGMATCH': 4, 'INDEXTESTS': 1, 'TAGNORM': 3}
 
 
 def failatomic(run, fx):
@@ -264,6 +264,27 @@ def nostraddle(run, fx):
             st.extend(fn.succs(x))
     idx_def = [e for _, e in fn.elements() if e['k'] == 'BinaryOperator' and e['op'] == '=' and fn.render(fn.N(e['c'][0])) == 'this->m_index']
     okdef = idx_def and fn.render(fn.N(idx_def[0]['c'][1])).replace(' ', '') == '((bits_offset+need_bits)/graphite2::FeatureRef::SIZEOF_CHUNK)'
+    # the shift is taken from the offset the feature finally gets: the bump cannot run after m_bits was computed, the advance over
+    # the feature's own bits cannot run before it
+    from .effrules import _elem_reaches
+    shift = [e for _, e in fn.elements() if e['k'] == 'BinaryOperator' and e['op'] == '=' and fn.render(fn.N(e['c'][0])) == 'this->m_bits'
+             and any(x['k'] == 'DeclRefExpr' and x.get('n', fn.render(x)) == 'bits_offset' or fn.render(x) == 'bits_offset' for x in fn.walk(e['c'][1]))]
+    adv = [e for _, e in fn.elements() if (e['k'] == 'CompoundAssignOperator' and e['op'] == '+=' and fn.render(fn.N(e['c'][0])) == 'bits_offset') or
+           (e['k'] == 'BinaryOperator' and e['op'] == '=' and fn.render(fn.N(e['c'][0])) == 'bits_offset' and e not in bump)]
+    if not shift or not adv:
+        run.broken('NOSTRADDLE', 'shift from final offset', 'm_bits = f(bits_offset) (%d) / the advance of bits_offset (%d) not found' % (len(shift), len(adv)), fn.where())
+    else:
+        stale = [b_ for b_ in bump for s_ in shift if _elem_reaches(fn, s_, b_)]
+        early = [a_ for a_ in adv for s_ in shift if _elem_reaches(fn, a_, s_)]
+        if stale:
+            run.violated('NOSTRADDLE', 'shift from final offset', fn.loc(shift[0]), 'm_bits is computed from bits_offset at line %s, before the move to the next chunk at line %s: '
+                         'a feature that was moved keeps the shift of its old position, its mask is shifted out of the word or onto a later feature\'s bits'
+                         % (shift[0].get('ln'), stale[0].get('ln')))
+        elif early:
+            run.violated('NOSTRADDLE', 'shift from final offset', fn.loc(shift[0]), 'bits_offset is advanced over the feature\'s own bits (line %s) before m_bits is taken from it'
+                         % early[0].get('ln'))
+        else:
+            run.held('NOSTRADDLE', 'shift from final offset', fn.loc(shift[0]), 'm_bits is computed after the chunk bump and before the advance')
     if ok and okdef:
         run.held('NOSTRADDLE', 'chunk bump', fn.loc(bump[0]), 'whenever (bits_offset + need_bits) / CHUNK exceeds bits_offset / CHUNK the offset moves to the start of that chunk')
     else:
@@ -272,8 +293,70 @@ def nostraddle(run, fx):
                      'features overlap it')
 
 
+def lenunit(run, fx):
+    """NameTable::getName reports the label's length in code units of the encoding it returns: when the returned buffer is not the
+    UTF-16 source itself, the length is what the converting iterator wrote (a difference of positions in that buffer), not the
+    UTF-16 length -- a surrogate pair is one UTF-32 unit and up to four UTF-8 units"""
+    fn = fx.one('graphite2::NameTable::getName')
+    lp = [p for p in fn.f['params'] if (p.get('t') or '').replace('graphite2::', '') in ('unsigned int &', 'uint32 &')]
+    if len(lp) != 1:
+        raise AnalysisBroken('NameTable::getName: the length out-parameter not found')
+    lv = lp[0]['vid']
+    n = 0
+    for _, r in fn.elements():
+        if r['k'] != 'ReturnStmt' or not r.get('c') or fn.is_null(r['c'][0]):
+            continue
+        buf = fn.strip_all_casts(r['c'][0])
+        if buf['k'] != 'DeclRefExpr' or buf.get('vid') is None:
+            continue
+        et = (buf.get('t') or '').replace('graphite2::', '').replace('const ', '').rstrip(' *')
+        # the assignment to length that reaches this return: the last one in a dominating block
+        asg = [e for _, e in fn.elements() if e['k'] == 'BinaryOperator' and e['op'] == '=' and fn.strip_all_casts(e['c'][0]).get('vid') == lv
+               and (fn.block_of[e['i']] in fn.dominators()[fn.block_of[r['i']]])]
+        if not asg:
+            run.violated('LANGMATCH', 'label length unit @%s' % r['ln'], fn.loc(r), 'getName returns a label without setting its length')
+            continue
+        a = max(asg, key=lambda e: (len(fn.dominators()[fn.block_of[e['i']]]), fn.pos_of[e['i']]))
+        n += 1
+        inst = 'label length unit (%s buffer) @%s' % (et, r['ln'])
+        uses_buf = any(x['k'] == 'DeclRefExpr' and x.get('vid') == buf['vid'] for x in fn.walk(a['c'][1])) and \
+            any(x['k'] == 'BinaryOperator' and x.get('op') == '-' for x in fn.walk(a['c'][1]))
+        if et in ('unsigned short', 'uint16', 'utf16::codeunit_t'):
+            run.held('LANGMATCH', inst, fn.loc(a), 'the UTF-16 source is returned with its own length', False)
+        elif uses_buf:
+            run.held('LANGMATCH', inst, fn.loc(a), 'length = %s: units written into the returned buffer' % fn.render(a['c'][1])[:60])
+        else:
+            run.violated('LANGMATCH', inst, fn.loc(a), 'getName returns a %s buffer but reports length = `%s`, which is not the number of units the conversion wrote into it: '
+                         'for labels with characters outside the BMP the length is too long (stale bytes before the terminator) and the three encodings of one label '
+                         'no longer agree' % (et, fn.render(a['c'][1])[:80]))
+    if n < 3:
+        run.broken('LANGMATCH', 'label length unit', 'expected the three encoding branches of getName, found %d' % n, fn.where())
+
+
+def idorder(run, fx):
+    """feature and language ids are arbitrary 32-bit values (tags, or small numbers such as the language-id feature 1): code that
+    orders them (a sorted table, a bisection) compares the ids themselves, never the sign of their wrapped difference"""
+    from .util import signdiff_sites
+    files = ('src/FeatureMap.cpp', 'src/inc/FeatureMap.h', 'src/inc/FeatureVal.h', 'src/gr_features.cpp', 'src/NameTable.cpp', 'src/inc/NameTable.h')
+    nf = 0
+    for fn in fx.all_fns():
+        if fn.file not in files or not fn.blocks:
+            continue
+        nf += 1
+        for e, txt in signdiff_sites(fn):
+            run.violated('INDEXTESTS', 'id order in %s' % fn.q.split('::')[-1], fn.loc(e), '%s decides an order by the sign of `%s` taken as a signed number: both operands are '
+                         'unsigned 32-bit ids, and for ids 2^31 or more apart (a tag against the numeric feature id 1) the sign is the opposite of their order -- a feature that '
+                         'is present is reported as not found, its Sill overrides are dropped' % (fn.q, txt))
+    if nf < 20:
+        run.broken('INDEXTESTS', 'id order', 'only %d feature/name functions scanned' % nf, '')
+    else:
+        run.held('INDEXTESTS', 'id order', '', '%d feature/name functions: no ordering by the sign of a wrapped unsigned difference' % nf)
+
+
 def run(run):
     fx = run.facts('Q0')
+    lenunit(run, fx)
+    idorder(run, fx)
     failatomic(run, fx)
     nostraddle(run, fx)
     readguard(run, fx)
